@@ -104,7 +104,10 @@ impl CMsgRef<'_> {
 
     pub(crate) fn decode_data<T: AncillaryData>(&self) -> Result<T, CodecError> {
         let data_ptr = unsafe { CMSG_DATA(self.0) } as *const u8;
-        let buffer = unsafe { slice::from_raw_parts(data_ptr, self.len()) };
+        // `cmsg_len` counts the header too: the data is what follows it.
+        #[allow(clippy::unnecessary_cast)]
+        let data_len = self.len().saturating_sub(unsafe { CMSG_LEN(0) } as usize);
+        let buffer = unsafe { slice::from_raw_parts(data_ptr, data_len) };
         T::decode(buffer)
     }
 }
